@@ -600,8 +600,8 @@ func (in *Inst) applyContract(con *Contract, args []Val, sig *types.Signature, r
 	if con.ModifiesAll {
 		in.havocAll(st)
 		for _, mi := range con.Modifies {
-			if mi.Kind == modGhost {
-				in.havocGhost(mi.Name, st)
+			if mi.Kind == modGhost || mi.Kind == modField {
+				in.havocItem(mi, env, oldSt, st)
 			}
 		}
 	} else {
@@ -856,25 +856,54 @@ func (in *Inst) callAsserts(x *ssa.Call, st *State, after bool) {
 		o := in.e.oblige("assert", fmt.Sprintf("%s:%s#%d/%d", when, name, ord, i), x.Pos(), st.reach, t)
 		o.Top = true
 	}
-	if after {
-		for _, gu := range in.con.Ghosts {
-			if gu.Callee != name || (gu.Ordinal >= 0 && gu.Ordinal != ord) {
-				continue
-			}
-			env := in.newEnv(st)
-			env.atBlock = x.Block()
-			env.atIdx = instrIndex(x) + 1
+	for _, gu := range in.con.Ghosts {
+		if gu.Callee != name || (gu.Ordinal >= 0 && gu.Ordinal != ord) || gu.Before == after {
+			continue
+		}
+		env := in.newEnv(st)
+		env.atBlock = x.Block()
+		env.atIdx = instrIndex(x)
+		if after {
+			env.atIdx++
 			if v, ok := in.vals[x]; ok {
 				env.vars["result"] = v
 			}
-			v := env.eval(gu.Expr)
-			g, ok := in.e.W.ghosts[gu.Name]
-			if !ok {
-				in.e.fail("ghostset: unknown ghost %s", gu.Name)
-			}
-			in.e.regComp("g:"+gu.Name, g.Sort)
-			st.set("g:"+gu.Name, v.T)
 		}
+		v := env.eval(gu.Expr)
+		in.ghostAssign(gu, env, v, st)
+	}
+}
+
+// ghostAssign: lhs is a ghost variable or x.ghostfield.
+func (in *Inst) ghostAssign(gu GhostUpdate, env *SpecEnv, v Val, st *State) {
+	e := in.e
+	switch l := gu.Lhs.(type) {
+	case *ast.Ident:
+		g, ok := e.W.ghosts[l.Name]
+		if !ok {
+			e.fail("ghostset: unknown ghost %s", l.Name)
+		}
+		e.regComp("g:"+l.Name, g.Sort)
+		st.set("g:"+l.Name, v.T)
+	case *ast.SelectorExpr:
+		base := env.eval(l.X)
+		if base.K != KRef || base.Ty == nil {
+			e.fail("ghostset: base of %s is not a struct pointer", gu.Name)
+		}
+		T := base.Ty
+		if p, ok := T.Underlying().(*types.Pointer); ok {
+			T = p.Elem()
+		}
+		key := structKey(T) + "." + l.Sel.Name
+		g, ok := e.W.ghosts[key]
+		if !ok {
+			e.fail("ghostset: %s is not a ghost field", key)
+		}
+		comp := "gf:" + key
+		e.regComp(comp, "(Array Int "+g.Sort+")")
+		st.set(comp, e.define("st", e.compSort(comp), sStore(st.get(comp), base.T, v.T)))
+	default:
+		e.fail("ghostset: unsupported left-hand side %s", gu.Name)
 	}
 }
 
@@ -887,6 +916,9 @@ func calleeName(c *ssa.CallCommon) string {
 	}
 	if f := c.StaticCallee(); f != nil {
 		return f.Name()
+	}
+	if n, ok := c.Value.Type().(*types.Named); ok {
+		return n.Obj().Name()
 	}
 	return c.Value.Name()
 }
